@@ -317,7 +317,7 @@ class Reporter:
         if exhaustive:
             cov['exhaustive'] = True
         for t, c in self.tables.items():
-            cov[t] = dict(sorted(c.items(), key=lambda kv: str(kv[0]))) if len(c) <= 400 else {'distinct': len(c), 'top': dict(c.most_common(60))}
+            cov[t] = dict(sorted(c.items(), key=lambda kv: str(kv[0]))) if len(c) <= 3000 else {'distinct': len(c), 'top': dict(c.most_common(60))}
         if extra:
             cov.update(extra)
         ev = {
